@@ -3,11 +3,16 @@ number encoding of rocq/Text/TokEnum.v, the 63-bit checksum mirrored from that f
 parallel implementation runs."""
 from __future__ import annotations
 
+import contextlib
 import itertools
 import multiprocessing as mp
 import os
 import re
+import resource  # noqa: F401 - imported HERE so that harness.common._unlimit_stack (a preexec_fn, run in a forked child of a threaded process) finds it in sys.modules
+import signal
 import subprocess
+import threading
+import time
 from concurrent.futures import ThreadPoolExecutor
 from typing import Any, Iterable, Sequence
 
@@ -80,6 +85,15 @@ def impl_results(data: Any, bits: int, ncalls: int) -> list[int]:
     A foreign exception (anything that is not the tokenizer's TokenSyntaxError) is encoded as [4, ...] and never
     matches the model."""
     Tokenizer, TokenSyntaxError = _tk()
+    try:
+        with time_limit():
+            return _impl_results(Tokenizer, TokenSyntaxError, data, bits, ncalls)
+    except ImplTimeout:
+        note_hang('Tokenizer', (data if isinstance(data, str) else '<chunks>', _OPTS[bits], ncalls))
+        return list(HANG)
+
+
+def _impl_results(Tokenizer, TokenSyntaxError, data: Any, bits: int, ncalls: int) -> list[int]:
     tk = Tokenizer(data, None, **_OPTS[bits])
     out: list[int] = []
     for _ in range(ncalls):
@@ -139,6 +153,171 @@ def decode_results(xs: list[int]) -> list:
     return out
 
 
+
+# ------------------------------------------------------------------------------------------------ robustness of the check itself
+class Inconclusive(RuntimeError):
+    """The checking machine failed (fork / thread / memory / a coqc process killed or timed out), not the source under test.
+    Propagates out of run(): the harness prints INTERNAL-ERROR (exit 2, "nothing is claimed") - never a VIOLATION."""
+
+
+class ImplTimeout(BaseException):
+    """A call into the implementation did not return within its time limit (BaseException: `except Exception` in the code under
+    test must not swallow it)."""
+
+
+IMPL_LIMIT_S = 2.0             # CPU seconds (ITIMER_PROF): independent of the load of the machine; a call needs < 1 ms of CPU
+_LIMIT_ACTIVE = [False]
+_STRIKES = [0]
+
+
+def current_limit() -> float:
+    """The limit shrinks once calls have been seen to hang in this process: a fault that makes every other input loop must not turn
+    a 30 s stage into hours (3 strikes at 2 s, 17 at 0.2 s, 80 at 0.03 s, then 4 ms of CPU per call - one timer tick, still many
+    times what a call on these short texts needs; only reached in a run that has already seen 100 hangs)."""
+    n = _STRIKES[0]
+    return IMPL_LIMIT_S if n < 3 else IMPL_LIMIT_S / 10 if n < 20 else IMPL_LIMIT_S / 66 if n < 100 else IMPL_LIMIT_S / 500
+
+
+def _on_prof(signum, frame):
+    if _LIMIT_ACTIVE[0]:
+        _STRIKES[0] += 1
+        raise ImplTimeout()
+
+
+_HANDLER_PID = [0]
+
+
+@contextlib.contextmanager
+def time_limit(seconds: float | None = None):
+    """Bound the CPU time of one call into the implementation (a fault could make it loop). Only in a main thread (signals);
+    elsewhere, and inside another time_limit, unbounded (the outer limit applies).  The SIGPROF handler is installed once per
+    process; per call only the interval timer is armed and disarmed."""
+    if _LIMIT_ACTIVE[0] or threading.current_thread() is not threading.main_thread():
+        yield
+        return
+    if _HANDLER_PID[0] != os.getpid():
+        signal.signal(signal.SIGPROF, _on_prof)
+        _HANDLER_PID[0] = os.getpid()
+    _LIMIT_ACTIVE[0] = True
+    signal.setitimer(signal.ITIMER_PROF, seconds if seconds is not None else current_limit())
+    try:
+        yield
+    finally:
+        signal.setitimer(signal.ITIMER_PROF, 0)
+        _LIMIT_ACTIVE[0] = False
+
+
+class TooManyHangs(Exception):
+    """So many calls into the implementation ran into their time limit that going on is pointless: the check stops and reports
+    the first of them as a violation (with what has been found so far)."""
+    def __init__(self, fn: str, args_repr: str) -> None:
+        super().__init__(fn, args_repr)
+        self.fn, self.args_repr = fn, args_repr
+
+
+HANG_ABORT = 300
+_FIRST_HANG: list = []
+
+
+def note_hang(fn: str, args: Any) -> None:
+    if not _FIRST_HANG:
+        _FIRST_HANG.append((fn, repr(args)[:600]))
+    if _STRIKES[0] >= HANG_ABORT:
+        raise TooManyHangs(*_FIRST_HANG[0])
+
+
+def bounded(on_timeout):
+    """Decorator: the call is bounded by time_limit(); when the limit strikes the function returns `on_timeout` (a value that
+    never matches the model / is reported as a failing input); after HANG_ABORT strikes in one process TooManyHangs stops the check."""
+    import functools
+
+    def deco(fn):
+        @functools.wraps(fn)
+        def wrapper(*a, **k):
+            try:
+                with time_limit():
+                    return fn(*a, **k)
+            except ImplTimeout:
+                note_hang(fn.__name__, (a, k))
+                return on_timeout
+        return wrapper
+    return deco
+
+
+HANG = [4, 9, *map(ord, 'no result within the time limit')]
+
+
+def stage_bounded(ck: Ck, key: str, fn, *args, seconds: float = 60.0) -> None:
+    """A whole oracle stage on small fixed inputs under one CPU-time limit; a timeout is a violation (the stage needs < 1 s)."""
+    try:
+        with time_limit(seconds):
+            fn(*args)
+    except ImplTimeout:
+        ck.violation(f'hang:{key}', f'{key}: the implementation did not return within {seconds:.0f} s of CPU time on the fixed inputs of this oracle',
+                     {'kind': 'hang', 'stage': key})
+
+
+def _run_coqc(cmd: Sequence[str], cwd, timeout: int, what: str) -> subprocess.CompletedProcess:
+    """coqc with retries on failures of the machine: fork/exec errors (EAGAIN, ENOMEM), an exception in the preexec_fn, the
+    process killed by a signal (OOM killer).  A timeout or a persistent failure is Inconclusive, never a failed obligation."""
+    last = ''
+    for attempt in range(3):
+        try:
+            r = subprocess.run(list(cmd), capture_output=True, text=True, timeout=timeout, cwd=cwd, preexec_fn=_unlimit_stack)
+        except subprocess.TimeoutExpired:
+            raise Inconclusive(f'{what}: coqc did not finish within {timeout} s (overloaded machine?)') from None
+        except (OSError, subprocess.SubprocessError, MemoryError) as e:
+            last = repr(e)
+            time.sleep(2 * (attempt + 1))
+            continue
+        if r.returncode < 0:
+            last = f'coqc killed by signal {-r.returncode}'
+            time.sleep(2 * (attempt + 1))
+            continue
+        return r
+    raise Inconclusive(f'{what}: {last} (3 attempts)')
+
+
+def harden(ck: Ck) -> None:
+    """Route ck.coq_scratch (used by coq_eval / instance_obligations / theorems) through _run_coqc."""
+    if getattr(ck, '_hardened', False):
+        return
+    ck._hardened = True         # type: ignore[attr-defined]
+    lock = threading.Lock()
+
+    def coq_scratch(body: str, name: str = 'scratch', timeout: int = 600) -> tuple[int, str]:
+        with lock:              # the directory name is derived from the number of entries: two threads must not count at the same time
+            d = ck.scratch / f'coq_{name}_{len(os.listdir(ck.scratch))}'
+            d.mkdir()
+        f = d / f'{name}.v'
+        f.write_text(body)
+        r = _run_coqc(['coqc', '-Q', str(ROCQ), 'SV', '-Q', str(d), 'Scratch', str(f)], d, timeout, f'coqc {name}')
+        return r.returncode, r.stdout + r.stderr
+    ck.coq_scratch = coq_scratch        # type: ignore[method-assign]
+
+
+def guarded(pid: str, body, ck: Ck) -> None:
+    """run(ck) of a check: infrastructure failures end as a clearly marked INCONCLUSIVE + the harness's INTERNAL-ERROR."""
+    harden(ck)
+    del POOL_NOTES[:]
+    try:
+        body(ck)
+        ck.notes.extend(POOL_NOTES)
+    except TooManyHangs as e:
+        ck.violation(f'hang:{e.fn}', f'more than {HANG_ABORT} calls into the implementation did not return within their CPU-time limit '
+                     f'(2 s for the first ones); the check was stopped; first: {e.fn}{e.args_repr}',
+                     {'kind': 'hang', 'function': e.fn, 'arguments': e.args_repr})
+        ck.explain('instance:')
+        ck.explain('correspondence:')
+        ck.explain('translate:')
+    except Inconclusive as e:
+        print(f'INCONCLUSIVE property={pid}: {e} - the checking machine failed, not the source under test; no VIOLATION is claimed, re-run the check')
+        raise
+    except (BlockingIOError, MemoryError) as e:
+        print(f'INCONCLUSIVE property={pid}: {e!r} - resource exhaustion on the checking machine; no VIOLATION is claimed, re-run the check')
+        raise
+
+
 # ------------------------------------------------------------------------------------------------ parallel coqc
 def coq_eval_many(ck: Ck, jobs: Sequence[Sequence[str]], name: str, imports: Sequence[str] = IMPORTS, preamble: str = PRE,
                   timeout: int = 800, workers: int = 12) -> list[list[str] | None]:
@@ -154,12 +333,7 @@ def coq_eval_many(ck: Ck, jobs: Sequence[Sequence[str]], name: str, imports: Seq
             body += f'Eval vm_compute in ({e}).\n'
         f = d / f'{name}.v'
         f.write_text(body)
-        try:
-            r = subprocess.run(['coqc', '-Q', str(ROCQ), 'SV', '-Q', str(d), 'Scratch', str(f)], capture_output=True, text=True,
-                               timeout=timeout, cwd=d, preexec_fn=_unlimit_stack)
-        except subprocess.TimeoutExpired:
-            ck.notes.append(f'coq_eval_many {name}[{k}]: timeout')
-            return None
+        r = _run_coqc(['coqc', '-Q', str(ROCQ), 'SV', '-Q', str(d), 'Scratch', str(f)], d, timeout, f'coq_eval_many {name}[{k}]')
         if r.returncode != 0:
             ck.notes.append(f'coq_eval_many {name}[{k}] failed: {(r.stdout + r.stderr)[-800:]}')
             return None
@@ -169,8 +343,14 @@ def coq_eval_many(ck: Ck, jobs: Sequence[Sequence[str]], name: str, imports: Seq
             return None
         return vals
 
-    with ThreadPoolExecutor(max_workers=workers) as ex:
-        return list(ex.map(one, range(len(jobs))))
+    try:
+        with ThreadPoolExecutor(max_workers=workers) as ex:
+            return list(ex.map(one, range(len(jobs))))
+    except RuntimeError as e:            # "can't start new thread": do it one after the other
+        if 'thread' not in str(e):
+            raise
+        ck.notes.append(f'coq_eval_many {name}: {e}; evaluated sequentially')
+        return [one(k) for k in range(len(jobs))]
 
 
 def parse_int63(v: str) -> int:
@@ -179,13 +359,38 @@ def parse_int63(v: str) -> int:
     return int(v, 16) if v.startswith('0x') else int(v)
 
 
+POOL_TIMEOUT_S = 1500
+POOL_NOTES: list[str] = []
+
+
 def pool_map(fn, items: Sequence, workers: int = 14, chunksize: int = 1) -> list:
-    """Deterministic parallel map over forked workers (results in input order)."""
+    """Deterministic parallel map over forked workers (results in input order).  The result does not depend on the pool: if the
+    pool cannot be created (fork: EAGAIN / ENOMEM), a worker dies or the map does not finish in time (a forked child of a
+    threaded process can inherit a held lock), the items are computed in this process instead."""
     if len(items) <= 1:
         return [fn(x) for x in items]
-    ctx = mp.get_context('fork')
-    with ctx.Pool(min(workers, len(items))) as p:
-        return p.map(fn, items, chunksize)
+    try:
+        ctx = mp.get_context('fork')
+        pool = ctx.Pool(min(workers, len(items)))
+    except (OSError, MemoryError, RuntimeError) as e:
+        POOL_NOTES.append(f'pool_map: no pool ({e!r}); computed sequentially')
+        return [fn(x) for x in items]
+    try:
+        res = pool.map_async(fn, items, chunksize).get(POOL_TIMEOUT_S)
+        pool.close()
+        pool.join()
+        return res
+    except mp.TimeoutError:
+        pool.terminate()
+        POOL_NOTES.append(f'pool_map: no result after {POOL_TIMEOUT_S} s; computed sequentially')
+        return [fn(x) for x in items]
+    except (OSError, MemoryError, EOFError, BrokenPipeError) as e:
+        pool.terminate()
+        POOL_NOTES.append(f'pool_map: pool failed ({e!r}); computed sequentially')
+        return [fn(x) for x in items]
+    except BaseException:
+        pool.terminate()
+        raise
 
 
 def coq_chars(cs: Iterable[int]) -> str:
@@ -264,3 +469,96 @@ def instance_obligations_parallel(ck: Ck, groups: Sequence[tuple]) -> dict[str, 
     for p_ in parts:
         out.update(p_)
     return out
+
+
+# ------------------------------------------------------------------------------------------------ _get_token / _handle_comment as decision trees
+GT_IMPORTS = IMPORTS + ['SV.Text.HsTable', 'SV.Text.HsGen', 'SV.Text.GtTable', 'SV.Text.GtGen']
+_GT_ROLES = ['dispatch', 'bracket loop', 'paren loop', 'directive loop', 'bare loop', 'star comment loop', 'line comment loop', '_handle_comment entry']
+_GT_ENV = ['class', 'class of second', 'in _OPERATORS', 'in BARE_DISALLOWED', '_last_was_cr', 'line_num == 1', 'string_bracket', 'string_parens',
+           'allow_star_comments', 'preserve_comments', 'colon_operator', 'plus_operator']
+GT_WITNESS_ALPHA = [34, 13, 10, 32, 47, 42, 91, 93, 40, 41, 35, 58, 43, 120, 123, 0xFEFF]
+GT_WITNESS_BITS = [6, 127, 0, 89]
+
+
+def translate_get_token_trees(ck: Ck) -> bool:
+    """Gen/GtTrees_gen.v: the decision trees of Tokenizer._get_token / _handle_comment and the state census of the three
+    functions.  When the translator fails closed, invalid trees are written so that everything else still builds."""
+    from translate import c02_gettoken
+    ok = ck.translate('GtTrees_gen', c02_gettoken.translate)
+    if not ok:
+        ck.gen('GtTrees_gen', c02_gettoken.EMPTY_GEN, {'failed_closed': True})
+    return ok
+
+
+def get_token_tree_group(translated: bool, hs_rows: bool = False, next_char: bool = False, c02_property: bool = False) -> tuple | None:
+    """(imports, obligations, name) for ck.instance_obligations / instance_obligations_parallel; None when the translator failed."""
+    if not translated:
+        return None          # translate:GtTrees_gen is already a failed obligation; the invalid trees carry no information
+    obs = {}
+    if hs_rows:
+        obs.update({'handle_string_rows_are_the_model': 'handle_string_rows_are_the_model',
+                    'handle_string_flag_starts_false': 'handle_string_flag_starts_false'})
+    obs.update({
+        'get_token_dispatch_is_the_model': 'get_token_dispatch_is_the_model',
+        'bracket_loop_is_the_model': 'bracket_loop_is_the_model',
+        'paren_loop_is_the_model': 'paren_loop_is_the_model',
+        'directive_loop_is_the_model': 'directive_loop_is_the_model',
+        'bare_loop_is_the_model': 'bare_loop_is_the_model',
+        'star_comment_loop_is_the_model': 'star_comment_loop_is_the_model',
+        'line_comment_loop_is_the_model': 'line_comment_loop_is_the_model',
+        'handle_comment_entry_is_the_model': 'handle_comment_entry_is_the_model',
+        'tokenizer_class_binds_no_shared_data_attribute': 'tokenizer_class_binds_no_shared_data_attribute',
+        'tokenizer_functions_read_only_modelled_state': 'tokenizer_functions_read_only_modelled_state',
+        'tokenizer_functions_write_only_modelled_state': 'tokenizer_functions_write_only_modelled_state',
+    })
+    if next_char:
+        obs['next_char_rows_are_the_model'] = 'next_char_rows_are_the_model'
+    if c02_property:
+        obs['c02_property_hypotheses_hold_for_todays_source'] = 'c02_property_hypotheses_hold_for_todays_source'
+    return (GT_IMPORTS + (['SV.Text.NextChar', 'SV.Text.NextCharGen'] if next_char else []), obs, 'gtinst')
+
+
+def get_token_tree_obligations(ck: Ck, translated: bool, hs_rows: bool = False, res: dict | None = None, c02_property: bool = False) -> None:
+    """Instance obligations about the trees read from _get_token / _handle_comment (one per segment) and the state census.  When
+    a tree differs from the model's function, the differing environments and (small scope, inside Coq) texts on which the
+    code's trees and the hand model give different traces are reported; each such text is run on the implementation.
+    `res`: results of the group when it was already evaluated (in parallel with other groups)."""
+    from harness.common import parse_coq_nested
+    if not translated:
+        return
+    if res is None:
+        g = get_token_tree_group(translated, hs_rows, c02_property=c02_property)
+        res = ck.instance_obligations(g[0], g[1], name=g[2])
+    if res.get('next_char_rows_are_the_model') is False:
+        ck.tie_broken.append('the table read from Tokenizer._next_char is not the table of the model Text/NextChar.v')
+        ck.notes.append(f'_next_char rows: {ck.extra.get("translated", {}).get("NextChar_gen", {})}')
+    side = ck.extra.get('translated', {}).get('GtTrees_gen', {})
+    ck.count('get_token_tree_leaves', side.get('leaves', 0))
+    bad_census = [n for n in res if n.startswith('tokenizer_') and not res[n]]
+    if bad_census:
+        cen = {k: v for k, v in side.get('state_census', {}).items() if v}
+        ck.tie_broken.append(f'state census of _get_token/_handle_comment/_handle_string: {cen}')
+        ck.notes.append(f'state census: {cen}')
+    if all(v for n, v in res.items() if not n.startswith(('tokenizer_', 'handle_string_', 'next_char_', 'c02_property_'))):
+        return
+    ck.tie_broken.append('the decision trees read from Tokenizer._get_token/_handle_comment are not those of the model Text/Tokenizer.v')
+    vals = ck.coq_eval(GT_IMPORTS, ['map (fun p => (fst p, firstn 6 (snd p), length (snd p))) gen_tree_diffs',
+                                    f'firstn 8 (gt_tree_witnesses {coq_chars(GT_WITNESS_BITS)} {coq_chars(GT_WITNESS_ALPHA)} 3)'],
+                       name='gtdiff', preamble=PRE)
+    if vals is None:
+        return
+    diffs = []
+    for role, rows, n in parse_coq_nested(vals[0]):
+        for env, got, want in rows:
+            diffs.append({'segment': _GT_ROLES[role], 'differing_environments': n,
+                          'environment': {k: v for k, v in zip(_GT_ENV, env) if v},
+                          'source (second read, (push back, line increments, _last_was_cr, appends, end, a1, a2))': got, 'model': want})
+    wit = []
+    for bits, w, a, b in parse_coq_nested(vals[1]):
+        text = ''.join(map(chr, w))
+        impl = impl_results(text, bits, len(text) + 2)
+        wit.append({'text': text, 'option_bits': bits, 'trees_of_the_source': decode_results(list(a)), 'hand_model': decode_results(list(b)),
+                    'implementation': decode_results(impl), 'implementation_follows_the_trees': impl == list(a)})
+    ck.extra['get_token_trees'] = {'differing_leaves': diffs[:16], 'witness_texts': wit}
+    ck.notes.append(f'_get_token/_handle_comment: first differing leaf: {diffs[0] if diffs else None}; '
+                    f'first text on which the trees and the model differ: {wit[0] if wit else "none up to length 3"}')
